@@ -3,7 +3,7 @@
    internal nodes, node dispatch, the Merkle proof verifier walk).  Every
    theorem is for all byte strings / entry lists / allocation counters. *)
 From Verif Require Import Lib.Base Decode.GoSlice Decode.GoSliceFacts Decode.Node Decode.NodeProofs
-  Decode.ProofEntries Decode.ProofEntriesProofs Gen.DecodeConsts.
+  Decode.ProofEntries Decode.ProofEntriesProofs Decode.RoundTrip Gen.DecodeConsts.
 
 Theorem gen_layout_expected :
   DepthSize = 2 /\ ValueLengthSize = 4 /\ HashSize = 32 /\
@@ -113,3 +113,54 @@ Theorem walk_panics_on_unsupported_version :
   fst (run (walk (walk_fuel 0) 2 [Some [1; 1; 0; 0; 2]; None; None] 0 0)) = Panic.
 Proof. exact ProofEntriesProofs.walk_panics_on_unsupported_version. Qed.
 Print Assumptions walk_panics_on_unsupported_version.
+
+(* ---------- decode (encode n) = Ok (n, length (encode n)) ----------
+   Well-formedness: wf_key k := glen k < 2^16;
+   wf_leaf l := glen key < 2^16 /\ glen value < 2^32;
+   wf_inode n := LabelBitLength < 2^16 /\ glen Label = ToBytes LabelBitLength /\
+     the embedded leaf (if any) is wf /\ Left/Right are nil or 32-byte hashes
+     different from the empty hash (an empty-hash pointer decodes as nil). *)
+Theorem decode_encode_roundtrip_key : forall k rest s, wf_key k ->
+  key_sized_unmarshal (key_marshal k ++ rest) s = (Ok (k, 2 + glen k), s + glen k).
+Proof. exact key_rt. Qed.
+Print Assumptions decode_encode_roundtrip_key.
+
+Theorem decode_encode_roundtrip_leaf : forall l rest s, wf_leaf l ->
+  leaf_sized_unmarshal (leaf_marshal l ++ rest) s
+  = (Ok (l, 7 + glen (lkey l) + glen (lvalue l)), s + glen (lkey l) + glen (lvalue l)).
+Proof. exact leaf_rt. Qed.
+Print Assumptions decode_encode_roundtrip_leaf.
+
+Theorem decode_encode_roundtrip_internal : forall n s, wf_inode n ->
+  inode_sized_unmarshal (inode_marshal n) s
+  = (Ok (n, glen (inode_marshal n)), s + glen (ilabel n) + oleaf_size (ileaf n)).
+Proof. exact inode_rt_full. Qed.
+Print Assumptions decode_encode_roundtrip_internal.
+
+Theorem decode_encode_roundtrip_compact_v0 : forall n s,
+  wf_inode n -> ileft n = None -> iright n = None ->
+  inode_sized_unmarshal (inode_compact_marshal_v0 n) s
+  = (Ok (n, glen (inode_compact_marshal_v0 n)), s + glen (ilabel n) + oleaf_size (ileaf n)).
+Proof. exact inode_rt_compact_v0. Qed.
+Print Assumptions decode_encode_roundtrip_compact_v0.
+
+Theorem decode_encode_roundtrip_compact_v1 : forall n s,
+  wf_inode n -> ileft n = None -> iright n = None -> ileaf n = None ->
+  inode_sized_unmarshal (inode_compact_marshal_v1 n) s
+  = (Ok (n, glen (inode_compact_marshal_v1 n)), s + glen (ilabel n)).
+Proof. exact inode_rt_compact_v1. Qed.
+Print Assumptions decode_encode_roundtrip_compact_v1.
+
+Theorem decode_encode_roundtrip_node : forall n s,
+  match n with NLeaf l => wf_leaf l | NInternal i => wf_inode i end ->
+  fst (node_unmarshal (node_marshal n) s) = Ok n.
+Proof. exact node_rt. Qed.
+Print Assumptions decode_encode_roundtrip_node.
+
+Theorem wf_example :
+  wf_inode (mkInode 12 [171; 192] (Some (mkLeaf [171; 192] [1; 2; 3])) (Some (repeat 7 32)) None)
+  /\ fst (run (inode_sized_unmarshal (inode_marshal
+        (mkInode 12 [171; 192] (Some (mkLeaf [171; 192] [1; 2; 3])) (Some (repeat 7 32)) None))))
+     = Ok (mkInode 12 [171; 192] (Some (mkLeaf [171; 192] [1; 2; 3])) (Some (repeat 7 32)) None, 81).
+Proof. exact RoundTrip.wf_example. Qed.
+Print Assumptions wf_example.
